@@ -30,7 +30,7 @@ func CondWait(c *sync.Cond) {
 //go:norace
 func condBlock(s *Sim, key, lock uintptr) {
 	if s.aborted {
-		panic(abortPanic{})
+		abortTask(s)
 	}
 	s.steps++
 	s.call(request{kind: reqCondWait, t: s.current, ch: key, lock: lock})
